@@ -439,7 +439,10 @@ pub fn run(args: &Args, out: &mut Out) {
         out.bump("luagen");
     }
 
-    for (origin, src) in programs {
+    // every template program is also checked in a second layout (line breaks, indentation and comments
+    // between its tokens): the lints must not depend on the trivia carried by the tokens they look at
+    let mut queue: std::collections::VecDeque<(String, String)> = programs.into();
+    while let Some((origin, src)) = queue.pop_front() {
         let ast = match full_moon::parse(&src) {
             Ok(a) => a,
             Err(_) => {
@@ -457,6 +460,13 @@ pub fn run(args: &Args, out: &mut Out) {
         if !supported {
             out.bump("unsupported_syntax");
             continue;
+        }
+        if origin.starts_with("template") && !origin.ends_with(":layout") && !src.contains('\r') && rng.chance(1, 2) {
+            let twin = crate::twin::trivia_twin(&src, &d, &mut rng, out);
+            if twin != src {
+                queue.push_back((format!("{origin}:layout"), twin));
+                out.bump("layout_variant");
+            }
         }
         let result = std::panic::catch_unwind(std::panic::AssertUnwindSafe(|| list(vec![diags_sx(&checker51, &ast, &d), diags_sx(&checker_rbx, &ast, &d)])));
         match result {
